@@ -110,6 +110,7 @@ macro_rules! impl_ser {
 }
 
 impl_ser!(
+    ctap2::AuthenticatorOptions,
     ctap2::get_info::CtapOptions,
     ctap2::get_info::Response,
     ctap2::client_pin::Response,
@@ -184,6 +185,81 @@ pub fn ga_extensions_output(rng: &mut Rng, mask: u64) -> get_assertion::Extensio
     e
 }
 pub const N_GA_EXT: usize = if cfg!(feature = "tpp") { 2 } else { 1 };
+
+const SPEC_KEYS: [&str; 40] = [
+    "plat", "rk", "clientPin", "up", "uv", "pinUvAuthToken", "noMcGaPermissionsWithClientPin", "largeBlobs", "ep", "bioEnroll",
+    "userVerificationMgmtPreview", "uvBioEnroll", "authnrCfg", "uvAcfg", "credMgmt", "perCredMgmtRO", "credentialMgmtPreview",
+    "setMinPINLength", "makeCredUvNotRqd", "alwaysUv", "credProtect", "hmac-secret", "hmac-secret-mc", "largeBlobKey", "credBlob",
+    "minPinLength", "thirdPartyPayment", "payment", "FIDO", "CC-EAL", "FIPS-CMVP-2", "FIPS-CMVP-3", "FIPS-CMVP-2-PHY", "FIPS-CMVP-3-PHY",
+    "id", "name", "displayName", "icon", "type", "alg",
+];
+
+fn candidate_keys(rep: &mut Rep) {
+    use ctap_types::ctap2::{get_assertion, get_info, make_credential, AuthenticatorOptions};
+    use ctap_types::serde::cbor_deserialize;
+    if rep.shard != 0 {
+        return;
+    }
+    let mut keys: Vec<String> = SPEC_KEYS.iter().map(|s| s.to_string()).collect();
+    for t in &crate::schema::literals().texts {
+        if !t.is_empty() && t.len() <= 40 && t.chars().all(|c| c.is_ascii_alphanumeric() || c == '-' || c == '_') && !keys.contains(t) {
+            keys.push(t.clone());
+        }
+    }
+    macro_rules! offer {
+        ($ty:ty, $name:expr, $val:expr, $required:expr) => {{
+            // which candidates does the type know?  (a key is "known" if its presence changes the value)
+            let base_map: Vec<(V, V)> = $required.iter().map(|k: &&str| (V::text(k), V::Bool(true))).collect();
+            let Ok(base) = cbor_deserialize::<$ty>(&crate::cbor::encode(&crate::cbor::canonical(V::M(base_map.clone())))) else { return };
+            let mut known: Vec<String> = Vec::new();
+            for k in &keys {
+                if $required.contains(&k.as_str()) {
+                    known.push(k.clone());
+                    continue;
+                }
+                let mut m = base_map.clone();
+                m.push((V::text(k), $val));
+                let b = crate::cbor::encode(&crate::cbor::canonical(V::M(m)));
+                if let Ok(v) = cbor_deserialize::<$ty>(&b) {
+                    if v != base {
+                        known.push(k.clone());
+                    }
+                }
+            }
+            rep.count(&format!("candidate_keys_known/{}", $name), known.len() as u64);
+            // every pair of known members (and all together) decoded from canonical bytes and re-encoded
+            let mut sets: Vec<Vec<String>> = vec![known.clone()];
+            for i in 0..known.len() {
+                for j in (i + 1)..known.len() {
+                    sets.push(vec![known[i].clone(), known[j].clone()]);
+                }
+            }
+            for set in sets {
+                if !rep.begin(&format!("candidate-keys/{}", $name)) {
+                    continue;
+                }
+                let mut m = base_map.clone();
+                for k in &set {
+                    if !m.iter().any(|(kk, _)| *kk == V::text(k)) {
+                        m.push((V::text(k), $val));
+                    }
+                }
+                let b = crate::cbor::encode(&crate::cbor::canonical(V::M(m)));
+                if let Ok(v) = cbor_deserialize::<$ty>(&b) {
+                    standalone(rep, &format!("{}(decoded candidates)", $name), &v);
+                }
+            }
+        }};
+    }
+    let none: [&str; 0] = [];
+    offer!(get_info::CtapOptions, "CtapOptions", V::Bool(true), ["rk", "up"]);
+    offer!(AuthenticatorOptions, "AuthenticatorOptions", V::Bool(true), none);
+    offer!(make_credential::Extensions, "make_credential::Extensions", V::Bool(true), none);
+    offer!(get_assertion::ExtensionsInput, "get_assertion::ExtensionsInput", V::Bool(true), none);
+    offer!(get_assertion::ExtensionsOutput, "get_assertion::ExtensionsOutput", V::Bool(true), none);
+    #[cfg(feature = "gif")]
+    offer!(get_info::Certifications, "Certifications", V::U(2), none);
+}
 
 pub fn run(rep: &mut Rep) {
     let seed = rep.seed;
@@ -342,6 +418,11 @@ pub fn run(rep: &mut Rep) {
             standalone(rep, "get_assertion::ExtensionsOutput", &ext);
         }
     }
+    // (c3) members this harness does not know about: the text-keyed map types that can be decoded
+    //      are offered every candidate key (names of the CTAP 2.1/2.2 option / extension /
+    //      certification tables and every identifier-like string literal of the source tree) with a
+    //      plausible value; whatever the crate accepts is re-encoded and must be canonical
+    candidate_keys(rep);
     // (d) constructible serialisable types on their own, values across head thresholds
     let n = rep.n(1500, 1_500_000);
     for _ in 0..n * rep.nshards {
